@@ -188,6 +188,7 @@ fn main() {
     let steps: Vec<(&str, fn(&Path, &mut Gen) -> R<()>)> = vec![
         ("Backoff", gen_backoff),
         ("Frame", gen_frame),
+        ("Topic", gen_topic),
     ];
     let mut failed = false;
     for (name, f) in steps {
@@ -464,5 +465,96 @@ fn gen_frame(repo: &Path, g: &mut Gen) -> R<()> {
         match read.iter().find(|(_, rv, _)| rv == v) { Some((_, _, k)) => { let _ = writeln!(s, "  | .{v} => {}", body_expr(v, k)?); } None => { let _ = writeln!(s, "  | .{v} => .empty  -- never produced by try_from"); } }
     }
     g.emit_with_imports("Frame", &["SeliumModel.Wire.Schema"], &[codec_rel, frame_rel, "protocol/src/topic_name.rs", "protocol/src/operation.rs"], &s);
+    Ok(())
+}
+
+// ------------------------------------------------------------------------------------- topic names
+
+use regex_syntax::hir::{Class, Hir, HirKind, Look};
+
+fn regex_literal_of(src: &Src, name: &str) -> R<String> {
+    let cs = src.consts();
+    let e = cs.get(name).ok_or_else(|| Shape(format!("{}: static {name} not found", src.rel)))?;
+    if let Expr::Macro(m) = e {
+        let mac = m.mac.path.segments.last().unwrap().ident.to_string();
+        if mac != "lazy_regex" { return shape(&src.rel, format!("{name} is built by {mac}!, not lazy_regex!")); }
+        let lit: syn::LitStr = syn::parse2(m.mac.tokens.clone()).map_err(|e| Shape(format!("{}: {name}: macro argument is not one string literal ({e})", src.rel)))?;
+        Ok(lit.value())
+    } else {
+        shape(&src.rel, format!("{name} is not a lazy_regex! invocation"))
+    }
+}
+
+struct Comp { min: u32, max: u32, ranges: Vec<(u32, u32)> }
+
+fn comp_of(h: &Hir, ctx: &str) -> R<Comp> {
+    let h = match h.kind() { HirKind::Capture(c) => &*c.sub, _ => h };
+    match h.kind() {
+        HirKind::Repetition(r) => {
+            let max = r.max.ok_or_else(|| Shape(format!("{ctx}: unbounded repetition")))?;
+            if !r.greedy { return shape(ctx, "lazy repetition"); }
+            match r.sub.kind() {
+                HirKind::Class(Class::Unicode(u)) => Ok(Comp { min: r.min, max, ranges: u.ranges().iter().map(|x| (x.start() as u32, x.end() as u32)).collect() }),
+                HirKind::Class(Class::Bytes(b)) => Ok(Comp { min: r.min, max, ranges: b.ranges().iter().map(|x| (x.start() as u32, x.end() as u32)).collect() }),
+                _ => shape(ctx, "repetition of something that is not a character class"),
+            }
+        }
+        _ => shape(ctx, "component is not a bounded repetition of a class"),
+    }
+}
+
+fn lit_char(h: &Hir, ctx: &str) -> R<u32> {
+    match h.kind() {
+        HirKind::Literal(l) => {
+            let s = std::str::from_utf8(&l.0).map_err(|_| Shape(format!("{ctx}: non-UTF-8 literal")))?;
+            let mut it = s.chars();
+            match (it.next(), it.next()) { (Some(c), None) => Ok(c as u32), _ => shape(ctx, format!("separator literal {s:?} is not one character")) }
+        }
+        _ => shape(ctx, "expected a literal"),
+    }
+}
+
+fn gen_topic(repo: &Path, g: &mut Gen) -> R<()> {
+    let rel = "protocol/src/topic_name.rs";
+    let src = Src::load(repo, rel)?;
+    let reserved = src.const_str("RESERVED_NAMESPACE")?;
+    let topic_re = regex_literal_of(&src, "TOPIC_REGEX")?;
+    let comp_re = regex_literal_of(&src, "COMPONENT_REGEX")?;
+    let parse = |re: &str| regex_syntax::Parser::new().parse(re).map_err(|e| Shape(format!("{rel}: regex {re:?} does not parse: {e}")));
+    let th = parse(&topic_re)?;
+    let ch = parse(&comp_re)?;
+    // ^ sep (C{m,n}) sep (C{m,n}) $
+    let parts = match th.kind() { HirKind::Concat(v) => v.clone(), _ => return shape(rel, "TOPIC_REGEX is not a concatenation") };
+    if parts.len() != 6 { return shape(rel, format!("TOPIC_REGEX has {} parts, expected ^ sep (comp) sep (comp) $", parts.len())); }
+    if !matches!(parts[0].kind(), HirKind::Look(Look::Start)) || !matches!(parts[5].kind(), HirKind::Look(Look::End)) { return shape(rel, "TOPIC_REGEX is not anchored with ^ and $"); }
+    if !matches!(parts[2].kind(), HirKind::Capture(_)) || !matches!(parts[4].kind(), HirKind::Capture(_)) { return shape(rel, "TOPIC_REGEX components are not capture groups"); }
+    let sep1 = lit_char(&parts[1], rel)?;
+    let sep2 = lit_char(&parts[3], rel)?;
+    let ns = comp_of(&parts[2], rel)?;
+    let tp = comp_of(&parts[4], rel)?;
+    // ^ C{m,n} $
+    let cparts = match ch.kind() { HirKind::Concat(v) => v.clone(), _ => return shape(rel, "COMPONENT_REGEX is not a concatenation") };
+    if cparts.len() != 3 || !matches!(cparts[0].kind(), HirKind::Look(Look::Start)) || !matches!(cparts[2].kind(), HirKind::Look(Look::End)) { return shape(rel, "COMPONENT_REGEX is not ^class{m,n}$"); }
+    let cc = comp_of(&cparts[1], rel)?;
+    // how try_from slices before the reserved-prefix test, and Display
+    let tf = find_method(&src.ast, "TopicName", "try_from", Some("TryFrom")).ok_or_else(|| Shape(format!("{rel}: TryFrom<&str> for TopicName not found")))?;
+    let body = { let b = &tf.block; quote::quote!(#b).to_string() };
+    let slicing = if body.contains("value [1 ..] . starts_with (RESERVED_NAMESPACE)") { "index" }
+        else if body.contains("value . get (1 ..)") && body.contains("starts_with (RESERVED_NAMESPACE)") { "get" }
+        else { return shape(rel, "try_from: the reserved-namespace test is not one of the understood forms") };
+    let disp = find_method(&src.ast, "TopicName", "fmt", Some("Display")).ok_or_else(|| Shape(format!("{rel}: Display for TopicName not found")))?;
+    let dbody = { let b = &disp.block; quote::quote!(#b).to_string() };
+    if !dbody.contains("\"/{}/{}\" , self . namespace , self . topic") { return shape(rel, format!("Display is not \"/{{}}/{{}}\" of namespace and topic: {dbody}")); }
+    let ranges = |c: &Comp| c.ranges.iter().map(|(a, b)| format!("({a}, {b})")).collect::<Vec<_>>().join(", ");
+    let mut s = String::new();
+    let _ = writeln!(s, "/-- `RESERVED_NAMESPACE` as code points -/\ndef reserved : List Nat := [{}]", reserved.chars().map(|c| (c as u32).to_string()).collect::<Vec<_>>().join(", "));
+    let _ = writeln!(s, "/-- TOPIC_REGEX = {topic_re:?}: ^ sep1 (nsClass{{nsMin,nsMax}}) sep2 (tpClass{{tpMin,tpMax}}) $ -/");
+    let _ = writeln!(s, "def sep1 : Nat := {sep1}\ndef sep2 : Nat := {sep2}\ndef nsMin : Nat := {}\ndef nsMax : Nat := {}\ndef tpMin : Nat := {}\ndef tpMax : Nat := {}", ns.min, ns.max, tp.min, tp.max);
+    let _ = writeln!(s, "def nsClass : List (Nat × Nat) := [{}]", ranges(&ns));
+    let _ = writeln!(s, "def tpClass : List (Nat × Nat) := [{}]", ranges(&tp));
+    let _ = writeln!(s, "/-- COMPONENT_REGEX = {comp_re:?}: ^ compClass{{compMin,compMax}} $ -/");
+    let _ = writeln!(s, "def compMin : Nat := {}\ndef compMax : Nat := {}\ndef compClass : List (Nat × Nat) := [{}]", cc.min, cc.max, ranges(&cc));
+    let _ = writeln!(s, "/-- how `try_from` takes the part after the first byte: `true` = `value.get(1..)` (no panic), `false` = `value[1..]` -/\ndef checkedSlice : Bool := {}", if slicing == "get" { "true" } else { "false" });
+    g.emit("Topic", &[rel, "regex-syntax (the parser and Unicode tables the regex crate uses)"], &s);
     Ok(())
 }
